@@ -26,6 +26,8 @@ import (
 	"time"
 
 	"golang.org/x/net/http2"
+
+	"verif/harness/lab"
 )
 
 type upEvent struct {
@@ -154,6 +156,7 @@ type planAction struct {
 	final   string // respond | stall | close | rst | half
 	dup     bool
 	unk     bool
+	garbage int  // > 0: answer with corruption variant #garbage of the valid response, then close (C08 upstream side)
 	goaway  bool // answer, then announce that this connection goes away (bolt go-away frame / HTTP/2 GOAWAY / Connection: close) and close it
 	bodyLen int
 }
@@ -183,6 +186,10 @@ func parsePlan(ops []string) planAction {
 		case strings.HasPrefix(op, "b"):
 			if n, err := strconv.Atoi(op[1:]); err == nil {
 				a.bodyLen = n
+			}
+		case strings.HasPrefix(op, "g"):
+			if n, err := strconv.Atoi(op[1:]); err == nil {
+				a.garbage = n + 1
 			}
 		}
 	}
@@ -365,6 +372,11 @@ func (u *upstream) serveHTTP1(c net.Conn, id int64) {
 				c.Close()
 				return
 			}
+			if a.garbage > 0 {
+				_, _ = c.Write(corruptVariant(append([]byte(hdr), rb...), a.garbage))
+				c.Close()
+				return
+			}
 			// the exchange counts as answered from the moment the reply is handed to the socket: the peer cannot
 			// send its next request on this connection before it has received it
 			atomic.AddInt32(&inflight, -1)
@@ -486,6 +498,13 @@ func (u *upstream) serveBolt(c net.Conn, id int64) {
 				}
 				resp := buildBolt(boltFields{V2: f.V2, Ver1: f.Ver1, CmdType: 0, CmdCode: 2, Ver: f.Ver, ID: rid, Codec: f.Codec, TimeoutOrS: status,
 					Class: []byte("com.verif.Resp"), HeaderBlk: boltHeaderBlock(rh), Content: rb})
+				if a.garbage > 0 {
+					wmu.Lock()
+					_, _ = c.Write(corruptVariant(resp, a.garbage))
+					wmu.Unlock()
+					c.Close()
+					return
+				}
 				wmu.Lock()
 				answered = true
 				atomic.AddInt32(&inflight, -1) // answered from the moment the reply is handed to the socket
@@ -994,4 +1013,28 @@ func establishedTo(port int) int {
 
 func (u *upstream) port() int {
 	return u.ln.Addr().(*net.TCPAddr).Port
+}
+
+// corruptVariant returns the n-th variant of the corruption grid over a valid message (field values 0/1/2/3/max/max>>1/+-1 at
+// every offset of the first 96 bytes and widths 1, 2, 4; truncations; a few random splices) - the same grid C08 uses.
+func corruptVariant(valid []byte, n int) []byte {
+	var all [][]byte
+	c08Inputs(lab.NewRand(uint64(n)), valid, false, func(kind string, b []byte) { all = append(all, append([]byte(nil), b...)) })
+	if len(all) == 0 {
+		return valid
+	}
+	return all[n%len(all)]
+}
+
+func newBufReader(r io.Reader) *bufio.Reader { return bufio.NewReaderSize(r, 64*1024) }
+
+// readHTTP1Reply reads one HTTP/1.1 response including its body.
+func readHTTP1Reply(br *bufio.Reader) error {
+	resp, err := http.ReadResponse(br, &http.Request{Method: "POST"})
+	if err != nil {
+		return err
+	}
+	_, err = io.Copy(io.Discard, resp.Body)
+	resp.Body.Close()
+	return err
 }
